@@ -29,6 +29,11 @@ def _c01_extra(results):
 CFG = {
     "module": "Swat4.Properties.C01",
     "theorems": [
+        "Swat4.C01.sdkDecode_pack",
+        "Swat4.C01.sdkDecode_pack_marshalled",
+        "Swat4.C01.parse_total",
+        "Swat4.C01.parse_total_cfg",
+        "Swat4.C01.consumeString_total",
         "Swat4.C01.facts_ok",
     ],
     "shards": (4, 16),
